@@ -22,8 +22,8 @@ T = [
  ("S3","C23-2","C23","missed (quick)","caught","C23 thorough","needs a 5-step history (nested with-blocks); quick explores 4"),
  ("S3","C24-1","C24","missed","caught","C24 quick (after strengthening)","isolation level set in a second execution_options() call after an unrelated option: added two-step option sessions"),
  ("S3","C24-2","C24","missed","caught","C24 quick (after strengthening)","failing pool reset leaves the connection in the pool: added the 'dropped+gc+failing-pool-reset' ending"),
- ("S3","C27-1","C27","missed","pending","-","sticky _is_disconnect after a failed reconnect: needs two faults in one history (extension requested for the thorough tier)"),
- ("S3","C27-2","C27","missed by C27","caught","C26 quick","pool invalidation skipped when pool_recycle is set: C26's ledger (older-than-pool-invalidation) catches it; C27 had no pool_recycle dimension"),
+ ("S3","C27-1","C27","missed","caught","C27 quick","sticky _is_disconnect after a failed reconnect: needs two faults in one history; caught after C27 was extended to multi-fault histories (4 violations)"),
+ ("S3","C27-2","C27","missed by C27","caught","C26 quick, C27 quick (after extension)","pool invalidation skipped when pool_recycle is set: C26's ledger (older-than-pool-invalidation) catches it; C27 had no pool_recycle dimension at first, the extended C27 (pool_recycle as input) reports 12 violations"),
  ("S4","C38-1","C38","caught","caught","C38 quick","extended slice length formula wrong for negative steps"),
  ("S4","C38-2","C38","caught","caught","C38 quick","dict.update(pairs) with existing key keeps the old member"),
  ("S4","C49-1","C49","missed","missed","-","re-wrapping after session.refresh()/populate_existing: needs a flush/refresh against a database; outside the in-memory half claimed"),
